@@ -13,7 +13,8 @@ package main
 //	na <trusted ns/sa list> <k> <id1> <pods1> ... <idk> <podsk>
 //	      pods: list of name|ns|uid|sa|node
 //	req <ctx> <outs> <csr> <ttl> <imp> <signer> <cluster> <junk>
-//	      ctx: 4 flags xdsAuth,hasPeer,authInfo (0 none, 1 credentials.TLSInfo, 2 another AuthInfo),authPlaintext
+//	      ctx: 4 flags xdsAuth,hasPeer,authInfo (0 none, 1 credentials.TLSInfo, 2 another AuthInfo),authPlaintext; an optional 5th
+//	           flag 1: the context carries NO incoming metadata at all (then no clusterid either)
 //	      outs: list of authenticator outcomes kind|ids|podName|podNs|podUID|podSA, kind in ok,nil,err,both
 //	      csr: form|key|cn|org|sans|ca|extra
 //	      ttl: int64 seconds; imp/signer: - | s:<string> | n (number) | l (list) | o (struct) | b (bool) | z (null)
@@ -289,10 +290,20 @@ func (k *keyring) build(c csrSpec) (string, []byte) {
 		spki = nil
 	}
 	if strings.HasPrefix(c.form, "flip") {
-		// one corrupted byte somewhere in the DER: no longer parses, or the signature no longer verifies
+		// one corrupted byte somewhere in the signed part (the CertificationRequestInfo, header included): it no longer
+		// parses, or the signature no longer verifies.  (Outside it, Go ignores e.g. the parameters of the RSA signature
+		// algorithm identifier: a flip there leaves a CSR whose proof of possession still verifies - observation.)
 		n, _ := strconv.Atoi(c.form[4:])
 		der = append([]byte(nil), der...)
-		der[(n%64)*len(der)/64] ^= 0x21
+		var outer asn1.RawValue
+		start, size := 0, len(der)
+		if _, err := asn1.Unmarshal(der, &outer); err == nil {
+			var tbs asn1.RawValue
+			if _, err := asn1.Unmarshal(outer.Bytes, &tbs); err == nil {
+				start, size = len(der)-len(outer.Bytes), len(tbs.FullBytes)
+			}
+		}
+		der[start+(n%64)*size/64] ^= 0x21
 		spki = nil
 	}
 	p := string(pem.EncodeToMemory(&pem.Block{Type: typ, Bytes: der}))
@@ -413,6 +424,8 @@ func rawSANEntries(value []byte) ([]string, error) {
 // ---------------------------------------------------------------- fixtures: CAs
 
 type caFixtures struct {
+	genChecked int // outputs of util.GenCertKeyFromOptions / GenRootCertFromExistingKey examined, and the first defect found
+	genFault   string
 	extraRoot  string              // file handed to NewSelfSignedIstioCAOptions as rootCertFile (kind selfrot): the ECDSA root
 	rotStop    chan struct{}       // stops the root-cert rotator of the previous selfrot CA
 	k8s        *k8sfake.Clientset  // the API server holding istio-ca-secret (kind selfk8s)
@@ -475,9 +488,15 @@ func (f *caFixtures) selfRotating(life, def, max int64) (*ca.IstioCA, error) {
 	}
 	_, keyPem, _, _ := b.GetAllPem()
 	ttl := time.Duration(life) * time.Second
-	certPem, _, err := util.GenRootCertFromExistingKey(util.CertOptions{TTL: ttl, SignerPrivPem: keyPem, Org: "verif.org", IsCA: true, IsSelfSigned: true, RSAKeySize: 2048})
+	ropts := util.CertOptions{TTL: ttl, SignerPrivPem: keyPem, Org: "verif.org", IsCA: true, IsSelfSigned: true, RSAKeySize: 2048}
+	t0 := time.Now()
+	certPem, _, err := util.GenRootCertFromExistingKey(ropts)
 	if err != nil {
 		return nil, err
+	}
+	f.genChecked++
+	if fault := certGenFault(ropts, certPem, keyPem, t0, time.Now()); fault != "" && f.genFault == "" {
+		f.genFault = "root-from-existing-key-" + fault
 	}
 	if f.extraRoot == "" {
 		tmp, err := os.CreateTemp("", "c09-extra-root-*.pem")
@@ -518,6 +537,67 @@ func (f *caFixtures) self() (*util.KeyCertBundle, error) {
 	return f.selfBundle, nil
 }
 
+// checkedGen is util.GenCertKeyFromOptions (genCertTemplateFromOptions + x509.CreateCertificate) with its output
+// examined (oracle clause certgen-*): the certificate is what the options ask for - CA or not, signed by the named
+// signer (or itself), for the returned private key, valid from NotBefore (default: now) for TTL, naming exactly the
+// hosts - and nothing more.
+func (f *caFixtures) checkedGen(o util.CertOptions) ([]byte, []byte, error) {
+	before := time.Now()
+	c, k, err := util.GenCertKeyFromOptions(o)
+	if err == nil {
+		f.genChecked++
+		if fault := certGenFault(o, c, k, before, time.Now()); fault != "" && f.genFault == "" {
+			f.genFault = fault
+		}
+	}
+	return c, k, err
+}
+
+func certGenFault(o util.CertOptions, certPEM, keyPEM []byte, before, after time.Time) string {
+	l, err := parseLeaf(string(certPEM))
+	if err != nil || l.parsed == nil {
+		return "unparsable"
+	}
+	if l.isCA != o.IsCA || (o.IsCA && l.keyUsage&(1<<5) == 0) || (!o.IsCA && l.keyUsage&(1<<5) != 0) {
+		return "ca-flag"
+	}
+	key, err := util.ParsePemEncodedKey(keyPEM)
+	signer, ok := key.(crypto.Signer)
+	if err != nil || !ok {
+		return "key-unparsable"
+	}
+	if pub, err := x509.MarshalPKIXPublicKey(signer.Public()); err != nil || !bytes.Equal(pub, l.spki) {
+		return "key-mismatch"
+	}
+	issuer := l.parsed
+	if !o.IsSelfSigned {
+		issuer = o.SignerCert
+	}
+	if alg, ok := sigAlgs[l.sigAlg]; !ok || issuer == nil || issuer.CheckSignature(alg, l.tbs, l.sig) != nil {
+		return "not-signed-by-signer"
+	}
+	start0, start1 := before, after
+	if !o.NotBefore.IsZero() {
+		start0, start1 = o.NotBefore, o.NotBefore
+	}
+	if l.notBefore.Before(start0.Add(-time.Second)) || l.notBefore.After(start1) {
+		return "not-before"
+	}
+	if d := l.notAfter.Sub(l.notBefore); d != o.TTL.Truncate(time.Second) && d != o.TTL.Truncate(time.Second)+time.Second {
+		return "lifetime"
+	}
+	var want []string
+	if o.Host != "" {
+		for _, h := range strings.Split(o.Host, ",") {
+			want = append(want, oracleSAN(h))
+		}
+	}
+	if strings.Join(l.sans, ",") != strings.Join(want, ",") {
+		return "san-not-the-hosts"
+	}
+	return ""
+}
+
 // signerCert issues a fresh ECDSA intermediate whose NotAfter is `life` seconds from now (negative:
 // already expired).
 func (f *caFixtures) signerCert(parent *x509.Certificate, parentKey crypto.PrivateKey, life int64) ([]byte, []byte, error) {
@@ -529,7 +609,7 @@ func (f *caFixtures) signerCert(parent *x509.Certificate, parentKey crypto.Priva
 		o.NotBefore = time.Now().Add(time.Duration(life)*time.Second - time.Hour)
 		o.TTL = time.Hour
 	}
-	return util.GenCertKeyFromOptions(o)
+	return f.checkedGen(o)
 }
 
 // buildCA constructs the real IstioCA for one `ca` line.
@@ -565,10 +645,17 @@ func (f *caFixtures) buildCA(kind string, life, chainLife int64, def, max int64)
 				bundle = util.NewKeyCertBundleFromPem(c, k, append(append([]byte(nil), c2...), c...), f.rootPem, nil)
 			}
 		}
-	case "plugfile":
-		// through the production constructor for a plugged-in CA: files on disk, NewPluggedCertIstioCAOptions
+	case "plugfile", "plugfilenotca":
+		// through the production constructor for a plugged-in CA: files on disk, NewPluggedCertIstioCAOptions;
+		// plugfilenotca: the signing certificate is an end-entity certificate (BasicConstraints CA:FALSE)
 		var c, k []byte
-		if c, k, err = f.signerCert(f.rootCert, f.rootKey, life); err != nil {
+		if kind == "plugfilenotca" {
+			c, k, err = f.checkedGen(util.CertOptions{Host: "spiffe://cluster.local/ns/istio-system/sa/citadel", Org: "Not a CA", ECSigAlg: util.EcdsaSigAlg,
+				SignerCert: f.rootCert, SignerPriv: f.rootKey, TTL: time.Duration(life) * time.Second})
+		} else {
+			c, k, err = f.signerCert(f.rootCert, f.rootKey, life)
+		}
+		if err != nil {
 			break
 		}
 		dir, derr := os.MkdirTemp("", "c09-ca")
@@ -589,7 +676,7 @@ func (f *caFixtures) buildCA(kind string, life, chainLife int64, def, max int64)
 		}
 		opts, oerr := ca.NewPluggedCertIstioCAOptions(files, time.Duration(def)*time.Second, time.Duration(max)*time.Second, 2048)
 		if oerr != nil {
-			return nil, fmt.Errorf("fixture: %v", oerr)
+			return nil, oerr // a result of the code under test (e.g. the signing certificate is not a CA certificate)
 		}
 		return ca.NewIstioCA(opts)
 	case "selfk8s":
@@ -631,7 +718,7 @@ func (f *caFixtures) buildCA(kind string, life, chainLife int64, def, max int64)
 	case "future":
 		// a signing certificate that is not valid yet (NotBefore one hour ahead): the CA does not look at NotBefore
 		var c, k []byte
-		c, k, err = util.GenCertKeyFromOptions(util.CertOptions{IsCA: true, Org: "Signing CA", ECSigAlg: util.EcdsaSigAlg, SignerCert: f.rootCert,
+		c, k, err = f.checkedGen(util.CertOptions{IsCA: true, Org: "Signing CA", ECSigAlg: util.EcdsaSigAlg, SignerCert: f.rootCert,
 			SignerPriv: f.rootKey, NotBefore: time.Now().Add(time.Hour), TTL: time.Duration(life)*time.Second - time.Hour})
 		if err == nil {
 			bundle = util.NewKeyCertBundleFromPem(c, k, nil, f.rootPem, nil)
@@ -729,9 +816,10 @@ type world struct {
 
 // pendingUpdate is a cluster update whose new component has not been started yet.
 type pendingUpdate struct {
-	client kube.Client
-	pods   []podSpec
-	swaps  []multicluster.ComponentConstraint
+	running bool // its client was started (`cl run`), the swap not yet finalised
+	client  kube.Client
+	pods    []podSpec
+	swaps   []multicluster.ComponentConstraint
 }
 
 type worlds struct {
@@ -959,12 +1047,24 @@ func (x *world) event(f []string) error {
 			x.ids = append(x.ids, id)
 			x.pods[id] = nil
 		}
-		if x.pending[id] != nil {
+		if pu := x.pending[id]; pu != nil && !pu.running {
 			// a second update before the first one synced: the predecessor now is that unsynced component (empty informer)
 			x.pods[id] = nil
 		}
 		x.pending[id] = &pendingUpdate{client: client, pods: pods, swaps: swaps}
 		return nil
+	case len(f) == 3 && f[0] == "cl" && f[1] == "run":
+		// the new component of a pending update syncs, but nothing has asked the pending swap yet whether it has
+		// (pendingSwap.HasSynced finalises it): ForCluster goes through pendingSwap.active, which now hands out the NEW one
+		id := wire.Dec(f[2])
+		pu := x.pending[id]
+		if pu == nil || pu.running {
+			return nil
+		}
+		pu.running = true
+		pu.client.RunAndWait(x.stop)
+		x.pods[id] = pu.pods
+		return waitFor("new component sync", x.server.VerifNodeAuthorizerSynced)
 	case len(f) == 3 && f[0] == "cl" && f[1] == "sync":
 		id := wire.Dec(f[2])
 		pu := x.pending[id]
@@ -972,7 +1072,9 @@ func (x *world) event(f []string) error {
 			return nil
 		}
 		delete(x.pending, id)
-		pu.client.RunAndWait(x.stop)
+		if !pu.running {
+			pu.client.RunAndWait(x.stop)
+		}
 		x.pods[id] = pu.pods
 		return waitFor("cluster sync", func() bool { return allSynced(pu.swaps) })
 	case len(f) == 3 && f[0] == "cl" && f[1] == "del":
@@ -1094,6 +1196,7 @@ func (s scripted) Authenticate(security.AuthContext) (*security.Caller, error) {
 
 type reqSpec struct {
 	xdsAuth, hasPeer, tls, plaintext bool
+	noMD                             bool   // no incoming metadata attached to the context
 	other                            bool   // the peer's AuthInfo is neither nil nor credentials.TLSInfo
 	mode                             string // reqa / reqm: "" (TLS) | plain | noauth | other | otherplain
 	outs                             []authOutcome
@@ -1105,10 +1208,11 @@ type reqSpec struct {
 }
 
 func parseReq(f []string) (reqSpec, error) {
-	if len(f) != 9 || len(f[1]) != 4 {
+	if len(f) != 9 || (len(f[1]) != 4 && len(f[1]) != 5) {
 		return reqSpec{}, errors.New("bad req line")
 	}
 	r := reqSpec{xdsAuth: f[1][0] == '1', hasPeer: f[1][1] == '1', tls: f[1][2] == '1', other: f[1][2] == '2', plaintext: f[1][3] == '1'}
+	r.noMD = len(f[1]) == 5 && f[1][4] == '1'
 	r.outs = parseOutcomes(f[2])
 	r.csr = parseCSRSpec(wire.Dec(f[3]))
 	ttl, err := strconv.ParseInt(f[4], 10, 64)
@@ -1127,6 +1231,9 @@ func (r reqSpec) line() []string {
 		auth = "2"
 	}
 	ctx := wire.B(r.xdsAuth) + wire.B(r.hasPeer) + auth + wire.B(r.plaintext)
+	if r.noMD {
+		ctx += "1"
+	}
 	return []string{"req", ctx, encOutcomes(r.outs), r.csr.tok(), strconv.FormatInt(r.ttl, 10), r.imp, r.signer, r.cluster, strconv.Itoa(r.junk)}
 }
 
@@ -1152,7 +1259,9 @@ func (r reqSpec) build(k *keyring) (context.Context, *pb.IstioCertificateRequest
 	if r.cluster != "-" {
 		md["clusterid"] = wire.DecList(r.cluster)
 	}
-	ctx = metadata.NewIncomingContext(ctx, md)
+	if !r.noMD {
+		ctx = metadata.NewIncomingContext(ctx, md)
+	}
 	fields := map[string]any{}
 	put := func(key, tok string) {
 		if s, ok := metaString(tok); ok {
@@ -1524,6 +1633,7 @@ func (s *issueSUT) runA(a reqaSpec) (issueResult, *prepared, error) {
 	if p.rejected {
 		return issueResult{rejected: true}, p, nil
 	}
+	p.noMD = false // the request as a whole has metadata (at least its clusterid); `nomd` here is "no authorization value"
 	delete(p.md, "clusterid")
 	if a.req.cluster != "-" {
 		p.md["clusterid"] = wire.DecList(a.req.cluster)
